@@ -80,6 +80,14 @@ func fixedCases() [][]hx.T {
 			c("OFrontDump", 1), c("OFrontSet", 1, 5, vint(4)), c("OForwardKeepN", 1, 3), c("OBackSet", 3, 6, vint(1)), c("OBackPush", 3), c("OFrontDump", 1), c("OBackQuery", 1), c("OBackDump", 1)},
 		{c("OConnect", 1), c("OConnect", 2), c("OBackNew", 1, 1), c("OBackNew", 2, 2), c("OBackScript", 1, []any{c("ASet", 3, vstr(1)), c("ASet", 0, vstr(7)), "APush"}), c("OFrontSet", 1, 3, vstr(2)), c("OFrontSet", 1, 0, vstr(8)),
 			c("OBackSet", 2, 4, vint(1)), c("OBackPush", 2), c("OForward", 1), c("OForwardKeep", 1, 3), c("OBackScript", 3, []any{c("ASet", 5, vint(1)), "APush", "AQuery"}), c("OForward", 1), c("OBackDump", 3)},
+		// a close callback that panics: the connection is removed all the same - a query of it reports an
+		// error, a push to it has no effect (also through sessions made later for its id), others are undisturbed
+		{c("OConnect", 1), c("OConnect", 2), c("OFrontSet", 1, 4, vint(3)), c("OBackNew", 1, 1), c("OBackNew", 2, 2), c("OFrontHook", 1), c("ORemove", 1),
+			c("OBackQuery", 1), c("OBackSet", 1, 5, vint(1)), c("OBackPush", 1), c("OBackQuery", 1), c("OBackDump", 1), c("OBackNew", 3, 1), c("OBackQuery", 3), c("OBackDump", 3),
+			c("OBackQuery", 2), c("OFrontDump", 1), c("OFrontDump", 2), c("OFrontHook", 1)},
+		{c("OConnect", 1), c("OConnect", 101), c("OFrontHook", 101), c("OForwardKeepN", 101, 1), c("OForwardKeep", 1, 2), c("OFrontHook", 1),
+			c("OBackScript", 1, []any{c("ASet", 4, vint(1)), "APush", "AKick", c("ASet", 5, vint(2)), "APush", "AQuery"}), c("OBackQuery", 1), c("OBackDump", 1),
+			c("OBackSet", 1, 6, vint(1)), c("OBackPush", 1), c("OBackQuery", 1), c("ORemove", 1), c("OBackQuery", 2), c("OBackScript", 2, []any{c("ASet", 4, vint(1)), "APush", "AQuery"}), c("OFrontDump", 101)},
 		// value shapes
 		{c("OConnect", 1), c("OFrontSet", 1, 4, vint(9007199254740991)), c("OFrontSet", 1, 5, vlist(vint(1), vstr(5), vlist(vbool(true), "VNull"))),
 			c("OFrontSet", 1, 6, "VNull"), c("OFrontGet", 1, 4), c("OFrontGet", 1, 5), c("OFrontDump", 1), c("OBackNew", 1, 1), c("OBackQuery", 1),
@@ -238,8 +246,11 @@ func gen(cfg *hx.Config, i int) ([]hx.T, []string) {
 			ops = append(ops, hx.C("OFrontSet", sid, k, v))
 		case p < 25:
 			ops = append(ops, hx.C("OFrontGet", sid, int64(r.Intn(7))))
-		case p < 31:
+		case p < 29:
 			ops = append(ops, hx.C("OFrontDump", sid))
+		case p < 31:
+			tags["panicking-close-hook"] = true
+			ops = append(ops, hx.C("OFrontHook", sid))
 		case p < 38:
 			tags["forward"] = true
 			ops = append(ops, hx.C("OForward", sid))
